@@ -592,6 +592,7 @@ def rand_pair(rng, p):
         if i not in dst_jobs:
             _, dj = rand_job_pair(rng, sp_of(i, "dst"), p)
             dj["files"] = rand_files(rng, p["density"])
+            dj["dirs"] = [d for d in dj["dirs"] if d not in dj["files"]]
             dst_jobs[i] = dj
     src = {"jobs": src_jobs}
     dst = {"jobs": [dst_jobs[i] for i in d_idx]}
